@@ -376,3 +376,73 @@ func statCaps(r *spg.WLRecipe, kept []string, L int, scheme string, seedText str
 	}
 	return ""
 }
+
+// statSeps: a caller-written separator function that draws one of k strings uniformly: the
+// separator in every gap must have exactly that law ("each separator is a fresh independent draw
+// from its separator function", C04), whatever was drawn in the gaps before. 12,000 streams from
+// the operation's text, nine standard deviations.
+func statSeps(r *spg.WLRecipe, L int, sepSpec string, seedText string) string {
+	parts := strings.SplitN(sepSpec, ":", 3)
+	if len(parts) != 3 || L < 2 || L > 8 {
+		return ""
+	}
+	outs := decList(parts[2])
+	if len(outs) == 0 {
+		outs = []string{""}
+	}
+	mult := map[string]int{}
+	for _, o := range outs {
+		mult[o]++
+	}
+	h := uint64(1469598103934665603)
+	for i := 0; i < len(seedText); i++ {
+		h = (h ^ uint64(seedText[i])) * 1099511628211
+	}
+	g := &rng{s: h}
+	const N = 12000
+	counts := make([]map[string]int, L-1)
+	for i := range counts {
+		counts[i] = map[string]int{}
+	}
+	tape := make([]uint32, 8*L+32)
+	for n := 0; n < N; n++ {
+		for i := range tape {
+			tape[i] = g.u32()
+		}
+		sc := &scripted{bytes: wordsToBytes(tape)}
+		var p *spg.Password
+		var err error
+		ro := withReader(sc, func() { p, err = r.Generate() })
+		if ro.panicked || err != nil || p == nil {
+			return ""
+		}
+		toks := p.Tokens()
+		gap := -1
+		for i, t := range toks {
+			if t.Type() == spg.AtomType {
+				gap++
+				if gap < L-1 {
+					sep := ""
+					if i+1 < len(toks) && toks[i+1].Type() == spg.SeparatorType {
+						sep = toks[i+1].Value()
+					}
+					counts[gap][sep]++
+				}
+			}
+		}
+		if gap != L-1 {
+			return "" // an empty word: the gaps cannot be told apart
+		}
+	}
+	for gi, c := range counts {
+		for sp, m := range mult {
+			q := float64(m) / float64(len(outs))
+			exp := N * q
+			sigma := math.Sqrt(N * q * (1 - q))
+			if sigma > 0 && math.Abs(float64(c[sp])-exp) > 9*sigma {
+				return fmt.Sprintf(" CELL-FAIL=separator-marginal(gap=%d,separator=%s,count=%d,of=%d,expected=%.0f)", gi, encCps(sp), c[sp], N, exp)
+			}
+		}
+	}
+	return ""
+}
